@@ -235,7 +235,13 @@ def shard_main(argv):
             target = o.failure.sig
             holder = {"o": o}
 
+            shrink_deadline = time.time() + float(os.environ.get("VERIF_SHRINK_SECONDS", "180"))
+
             def still_fails(cand):
+                # shrinking is a courtesy with a time allowance of its own (a failure that makes every candidate run into
+                # the watchdog would otherwise keep the shard busy for hours); what was found so far is reported
+                if time.time() > shrink_deadline:
+                    return False
                 try:
                     oc = mod.run_case(cand, ctx)
                 except Exception:
